@@ -25,7 +25,8 @@ RULE = ("A real client stack and a real device (ReadProperty / WriteProperty / R
         "same error class/code) and selectors expand to the set derived from the property descriptors. Non-trivial: history with "
         "an acked write followed by a read of it, or a refused write. Distinct by (object type, configuration, history)."
         " Also: per-(type, property) sweep; values with a second component; out-of-range values for Unsigned8/16 properties alone, by index and inside whole arrays; the device object through RPM vs RP by identifier and by wildcard instance."
-        " Computed arrays of the device object whole vs by index.")
+        " Computed arrays of the device object whole vs by index."
+        " The all / required / optional selectors on the device object contain everything its declared properties answer through ReadProperty. One reduced copy of a generated shard runs with the library's debug tracing switched on (label tracing-on).")
 ASSUMPTIONS = [
     "objects with special write semantics (commandable mix-ins, device-object computed properties, writable name/identifier mix-ins, local schedule objects) are covered by C17/C20 or excluded",
     "array properties are held as ArrayOf instances and lists as Python lists, the types the library documents; array resizing through index 0 is not generated",
